@@ -7,5 +7,5 @@ CONSTANTS
   FixB = TRUE
   FixC = TRUE
   FixD = TRUE
-  FixE = TRUE
-INVARIANTS Fresh Demoted ClosedQuiet
+  FixE = FALSE
+INVARIANTS ClosedQuiet
